@@ -79,6 +79,49 @@ fn c01(rng: &mut Rng, out: &mut Out) {
             }
         }
     }
+    // the same over f64 and Complex<f64> (magnitude-based pivoting goes through abs / PartialOrd of these types):
+    // integer data with a nonsingular exact twin, plus tiny or negative leading entries that only a row exchange survives
+    for it in 0..240 { case();
+        let n = 1 + (it % 5);
+        let a = rand_m(rng, n, n);
+        if det_ref(&a).is_zero() { continue; }
+        let mut af: Vec<Vec<f64>> = a.iter().map(|r| r.iter().map(|x| x.to_f64()).collect()).collect();
+        if n > 1 && it % 3 == 0 && a[1][0].to_f64() != 0.0 { af[0][0] = 1.0e-17; }       // tiny leading pivot
+        if n > 1 && it % 4 == 1 { for j in 0..n { af[n - 1][j] *= -1.0e3; } }            // large negative row
+        let xs: Vec<f64> = (0..n).map(|_| rng.int(-4, 4) as f64).collect();
+        let bf: Vec<f64> = (0..n).map(|i| (0..n).map(|j| af[i][j] * xs[j]).sum()).collect();
+        let scale = af.iter().flatten().fold(0.0f64, |s, v| s.max(v.abs())) * (1.0 + xs.iter().fold(0.0f64, |s, v| s.max(v.abs()))) * n as f64;
+        for which in 0..2 { case();
+            let mut m = Mat64::new(n, n, 0.0);
+            for i in 0..n { for j in 0..n { m[(i, j)] = af[i][j]; } }
+            let bv = Vec64::create(bf.clone());
+            match quiet(|| if which == 0 { m.solve_basic(&bv) } else { m.solve_lu(&bv) }) {
+                Ok(x) => {
+                    let res = (0..n).map(|i| ((0..n).map(|j| af[i][j] * x[j]).sum::<f64>() - bf[i]).abs()).fold(0.0f64, f64::max);
+                    if !(res <= 1e-9 * (1.0 + scale)) {
+                        report(out, if which == 0 { "C01 solve_basic over f64: small backward error" } else { "C01 solve_lu over f64: small backward error" },
+                               format!("A={:?} b={:?}", af, bf), format!("x={:?} residual {:e}", (0..n).map(|i| x[i]).collect::<Vec<_>>(), res), "residual of the order of rounding".into());
+                    }
+                }
+                Err(e) => report(out, "C01 solver panicked on a nonsingular f64 system", format!("A={:?} b={:?}", af, bf), e, "a solution".into()),
+            }
+            // complex twin: A (1 + i/2), b (1 + i/2) has the same solution
+            let w = Cmplx::new(1.0, 0.5);
+            let mut mc = Matrix::<Cmplx>::new(n, n, Cmplx::new(0.0, 0.0));
+            for i in 0..n { for j in 0..n { mc[(i, j)] = w * af[i][j]; } }
+            let bc = Vector::<Cmplx>::create(bf.iter().map(|v| w * *v).collect());
+            match quiet(|| if which == 0 { mc.solve_basic(&bc) } else { mc.solve_lu(&bc) }) {
+                Ok(x) => {
+                    let res = (0..n).map(|i| { let mut s = Cmplx::new(0.0, 0.0); for j in 0..n { s = s + (w * af[i][j]) * x[j]; } (s - w * bf[i]).abs() }).fold(0.0f64, f64::max);
+                    if !(res <= 1e-9 * (1.0 + 2.0 * scale)) {
+                        report(out, if which == 0 { "C01 solve_basic over Complex<f64>: small backward error" } else { "C01 solve_lu over Complex<f64>: small backward error" },
+                               format!("A=(1+0.5i)*{:?} b=(1+0.5i)*{:?}", af, bf), format!("residual {:e}", res), "residual of the order of rounding".into());
+                    }
+                }
+                Err(e) => report(out, "C01 solver panicked on a nonsingular complex system", format!("A=(1+0.5i)*{:?}", af), e, "a solution".into()),
+            }
+        }
+    }
 }
 fn c02(rng: &mut Rng, out: &mut Out) {
     for it in 0..300 { case();
@@ -100,6 +143,29 @@ fn c02(rng: &mut Rng, out: &mut Out) {
                     if p != id || p2 != id { report(out, "C02 A*inv(A) == inv(A)*A == I", format!("A={}", mq(&a)), format!("A*inv={}", mq(&p)), "identity".into()); }
                 }
                 Err(e) => report(out, "C02 inverse panicked on a nonsingular matrix", format!("A={}", mq(&a)), e, "inverse".into()),
+            }
+        }
+        // the same matrix over f64 and Complex<f64> (pivoting by |.| of these types); integer data, tolerance of rounding size
+        let af: Vec<Vec<f64>> = a.iter().map(|r| r.iter().map(|x| x.to_f64()).collect()).collect();
+        let scale = (1.0 + af.iter().flatten().fold(0.0f64, |s, v| s.max(v.abs()))).powi(n as i32) * 24.0;
+        let mut mf = Mat64::new(n, n, 0.0); for i in 0..n { for j in 0..n { mf[(i, j)] = af[i][j]; } }
+        match quiet(|| mf.determinant()) {
+            Ok(d) => if !((d - dr.to_f64()).abs() <= 1e-9 * scale) { report(out, "C02 f64 determinant agrees with the exact determinant", format!("A={:?}", af), format!("{}", d), format!("{}", dr.to_f64())); },
+            Err(e) => report(out, "C02 f64 determinant panicked", format!("A={:?}", af), e, format!("{}", dr.to_f64())) }
+        let w = Cmplx::new(0.0, 2.0);      // det(w A) = w^n det(A)
+        let mut mc = Matrix::<Cmplx>::new(n, n, Cmplx::new(0.0, 0.0)); for i in 0..n { for j in 0..n { mc[(i, j)] = w * af[i][j]; } }
+        let mut wn = Cmplx::new(1.0, 0.0); for _ in 0..n { wn = wn * w; }
+        match quiet(|| mc.determinant()) {
+            Ok(d) => if !((d - wn * dr.to_f64()).abs() <= 1e-9 * scale * 16.0) { report(out, "C02 complex determinant agrees with the exact determinant", format!("A=2i*{:?}", af), format!("({}, {})", d.real, d.imag), format!("(2i)^{} * {}", n, dr.to_f64())); },
+            Err(e) => report(out, "C02 complex determinant panicked", format!("A=2i*{:?}", af), e, "a value".into()) }
+        if !dr.is_zero() {
+            match quiet(|| mf.inverse()) {
+                Ok(inv) => { let mut worst = 0.0f64;
+                    for i in 0..n { for j in 0..n { let mut s1 = 0.0; let mut s2 = 0.0; for k in 0..n { s1 += af[i][k] * inv[(k, j)]; s2 += inv[(i, k)] * af[k][j]; }
+                        let id = (i == j) as i64 as f64; worst = worst.max((s1 - id).abs()).max((s2 - id).abs()); } }
+                    let tol = 1e-9 * scale / dr.to_f64().abs().min(1.0);
+                    if !(worst <= tol) { report(out, "C02 f64 inverse: A*inv(A) and inv(A)*A are the identity to rounding", format!("A={:?}", af), format!("max deviation {:e}", worst), format!("<= {:e}", tol)); } }
+                Err(e) => report(out, "C02 f64 inverse panicked on a nonsingular matrix", format!("A={:?}", af), e, "inverse".into()),
             }
         }
     }
@@ -194,6 +260,34 @@ fn c04(rng: &mut Rng, out: &mut Out) {
                     report(out, "C04 banded solve divides by zero on a nonsingular system", format!("{} b={}", desc, qs(&rhs)), e, qs(&x)); },
             }
         }
+    } } } }
+}
+fn c04_f64(rng: &mut Rng, out: &mut Out) {
+    // f64 twin: magnitude pivoting inside the band with negative / tiny / zero diagonals; padding value must not matter
+    for n in 1..7usize { for m1 in 0..n { for m2 in 0..n { for rep in 0..4 { case();
+        let mut b = Banded::<f64>::new(n, m1, m2, 7.5);
+        let mut d = vec![vec![0.0f64; n]; n];
+        for i in 0..n { for j in 0..n { if j <= i + m2 && i <= j + m1 {
+            let mut v = rng.int(-4, 4) as f64;
+            if i == j { v = match rep { 0 => -(1.0 + rng.below(3) as f64), 1 => if m1 > 0 && i + 1 < n { 0.0 } else { 2.0 }, 2 => if m1 > 0 && i + 1 < n { 1.0e-17 } else { 3.0 }, _ => v }; }
+            if rep == 1 && i == j + 1 { v = -3.0; }
+            if rep == 2 && i == j + 1 { v = 2.0; }
+            b[(i, j)] = v; d[i][j] = v;
+        } } }
+        let dq: M = d.iter().map(|r| r.iter().map(|x| if x.abs() < 1e-10 && *x != 0.0 { Q::int(0) } else { Q::int(*x as i64) }).collect()).collect();
+        if det_ref(&dq).is_zero() { continue; }
+        let xs: Vec<f64> = (0..n).map(|_| rng.int(-4, 4) as f64).collect();
+        let rhs: Vec<f64> = (0..n).map(|i| (0..n).map(|j| d[i][j] * xs[j]).sum()).collect();
+        let desc = format!("n={} m1={} m2={} dense={:?} b={:?}", n, m1, m2, d, rhs);
+        match quiet(|| b.solve(&Vector::create(rhs.clone()))) {
+            Ok(x) => { let res = (0..n).map(|i| ((0..n).map(|j| d[i][j] * x[j]).sum::<f64>() - rhs[i]).abs()).fold(0.0f64, f64::max);
+                let sc = 1.0 + d.iter().flatten().fold(0.0f64, |s, v| s.max(v.abs())) * (0..n).map(|i| x[i].abs()).fold(0.0f64, f64::max) * n as f64;
+                if !(res <= 1e-9 * sc) { report(out, "C04 f64 banded solve: small backward error whatever the signs", desc.clone(), format!("residual {:e}", res), "rounding size".into()); } }
+            Err(e) => report(out, "C04 f64 banded solve panicked on a nonsingular system", desc.clone(), e, "a solution".into()),
+        }
+        if n <= 5 { match quiet(|| b.det()) {
+            Ok(dd) => { let dr = det_ref(&dq).to_f64(); if !((dd - dr).abs() <= 1e-7 * (1.0 + dr.abs())) { report(out, "C04 f64 banded det agrees with the dense determinant", desc.clone(), format!("{}", dd), format!("{}", dr)); } }
+            Err(e) => report(out, "C04 f64 banded det panicked", desc.clone(), e, "a value".into()) } }
     } } } }
 }
 fn c05(rng: &mut Rng, out: &mut Out) {
@@ -406,6 +500,14 @@ fn c10(rng: &mut Rng, out: &mut Out) {
     cases.push(vec![Cmplx::new(0.0, 0.0), Cmplx::new(0.0, 0.0), Cmplx::new(1.0, 0.0)]);            // x^2
     cases.push(vec![Cmplx::new(1.0, 0.0), Cmplx::new(0.0, 1.0e6), Cmplx::new(1.0, 0.0)]);          // x^2 + 1e6 i x + 1
     cases.push(vec![Cmplx::new(1.0, 0.0), Cmplx::new(0.0, 0.0), Cmplx::new(0.0, 0.0), Cmplx::new(0.0, 0.0), Cmplx::new(1.0, 0.0)]);  // x^4 + 1
+    // a (x - r)^3 and a (x - r)^2 (x - t) with a != +-1 (closed-form branches for repeated roots)
+    for (a, r, t) in [(2.0, -1.0, -1.0), (-3.0, 2.0, 2.0), (0.5, 1.0, 1.0), (2.0, 1.0, -2.0), (-4.0, -1.0, 3.0)] {
+        let (a, r, t) = (Cmplx::new(a, 0.0), Cmplx::new(r, 0.0), Cmplx::new(t, 0.0));
+        // (x - r)^2 (x - t) = x^3 - (2r + t) x^2 + (r^2 + 2 r t) x - r^2 t
+        cases.push(vec![a * (Cmplx::new(0.0, 0.0) - r * r * t), a * (r * r + r * t * 2.0), a * (Cmplx::new(0.0, 0.0) - (r * 2.0 + t)), a]);
+        let ai = Cmplx::new(0.0, 1.0) * a;
+        cases.push(vec![ai * (Cmplx::new(0.0, 0.0) - r * r * t), ai * (r * r + r * t * 2.0), ai * (Cmplx::new(0.0, 0.0) - (r * 2.0 + t)), ai]);
+    }
     for c in cases { for refine in [false, true] { case();
         let deg = c.len() - 1;
         let ctx = format!("coeffs={:?} refine={}", c.iter().map(|z| (z.real, z.imag)).collect::<Vec<_>>(), refine);
@@ -549,6 +651,24 @@ fn c15(rng: &mut Rng, out: &mut Out) {
         if (-va.clone()).norm_inf() != va.norm_inf() { report(out, "C15 ||-u|| == ||u||", ctx.clone(), format!("{}", (-va.clone()).norm_inf()), format!("{}", va.norm_inf())); }
         let d: f64 = a.iter().zip(&b).map(|(x, y)| x * y).sum(); if va.dot(&vb) != d { report(out, "C15 dot", ctx.clone(), format!("{}", va.dot(&vb)), format!("{}", d)); }
         let s = &va + &vb; if (0..n).any(|i| s[i] != a[i] + b[i]) { report(out, "C15 elementwise +", ctx.clone(), format!("{:?}", s), "sum".into()); }
+        // range sums / products over all index ranges (exact integer data), including one-index ranges and length-1 vectors
+        {
+            let iw: Vec<i64> = (0..n).map(|_| rng.int(-3, 3)).collect();
+            let vw = Vector::create(iw.clone());
+            for st in 0..n { for en in st..n { case();
+                let es: i64 = iw[st..=en].iter().sum(); let ep: i64 = iw[st..=en].iter().product();
+                match quiet(|| vw.sum_slice(st, en)) { Ok(g) => if g != es { report(out, "C15 sum_slice(start, end) is the inclusive range sum", format!("v={:?} start={} end={}", iw, st, en), format!("{}", g), format!("{}", es)); },
+                    Err(e) => report(out, "C15 sum_slice panicked on a valid range", format!("v={:?} start={} end={}", iw, st, en), e, format!("{}", es)) }
+                match quiet(|| vw.product_slice(st, en)) { Ok(g) => if g != ep { report(out, "C15 product_slice(start, end) is the inclusive range product", format!("v={:?} start={} end={}", iw, st, en), format!("{}", g), format!("{}", ep)); },
+                    Err(e) => report(out, "C15 product_slice panicked on a valid range", format!("v={:?} start={} end={}", iw, st, en), e, format!("{}", ep)) }
+            } }
+            match quiet(|| vw.sum()) { Ok(g) => if g != iw.iter().sum::<i64>() { report(out, "C15 sum of all elements", format!("v={:?}", iw), format!("{}", g), format!("{}", iw.iter().sum::<i64>())); },
+                Err(e) => report(out, "C15 sum panicked", format!("v={:?}", iw), e, "a value".into()) }
+            if quiet(|| vw.sum_slice(n, n)).is_ok() || (n > 1 && quiet(|| vw.sum_slice(1, 0)).is_ok()) { report(out, "C15 sum_slice rejects an out-of-range or reversed range", format!("v={:?}", iw), "returned".into(), "panic".into()); }
+        }
+        // p-norms with non-integer p on data with negative entries
+        { let pn = 1.0 + rng.below(13) as f64 * 0.5; let e = a.iter().map(|x| x.abs().powf(pn)).sum::<f64>().powf(1.0 / pn);
+          if !((va.norm_p(pn) - e).abs() <= 1e-10 * (1.0 + e)) { report(out, "C15 norm_p is (sum |x_i|^p)^(1/p)", format!("u={:?} p={}", a, pn), format!("{}", va.norm_p(pn)), format!("{}", e)); } }
         // find: first match, else last index
         let iv: Vec<i64> = (0..n).map(|_| rng.int(0, 3)).collect(); let key = rng.int(0, 4);
         let exp = iv.iter().position(|x| *x == key).unwrap_or(n - 1);
@@ -729,7 +849,7 @@ fn main() {
     let mut rng = Rng(0x9E3779B97F4A7C15 ^ (seed.wrapping_mul(0x2545F4914F6CDD1D) | 1));
     let mut out: Out = vec![];
     match pid.as_str() {
-        "C01" => c01(&mut rng, &mut out), "C02" => c02(&mut rng, &mut out), "C03" => c03(&mut rng, &mut out), "C04" => c04(&mut rng, &mut out),
+        "C01" => c01(&mut rng, &mut out), "C02" => c02(&mut rng, &mut out), "C03" => c03(&mut rng, &mut out), "C04" => { c04(&mut rng, &mut out); c04_f64(&mut rng, &mut out) },
         "C05" => c05(&mut rng, &mut out), "C06" => c06(&mut rng, &mut out), "C07" => c07(&mut rng, &mut out), "C08" => c08(&mut rng, &mut out),
         "C09" => c09(&mut rng, &mut out), "C10" => c10(&mut rng, &mut out), "C11" => c11(&mut rng, &mut out), "C12" => c12(&mut rng, &mut out),
         "C13" => c13(&mut rng, &mut out), "C14" => c14(&mut rng, &mut out), "C15" => c15(&mut rng, &mut out), "C16" => c16(&mut rng, &mut out),
